@@ -34,81 +34,129 @@ func ruleNegotiationSymmetry(c *Ctx, rule string) {
 		"(*ReverseTunnelServer).Serve":       "serveTunnel",
 	}
 	seenFn := map[string]bool{}
+	// one detection: the Get call cv in fn, evaluated for the opening path `user` (fn itself, or the caller of the
+	// predicate helper fn at call site via, whose arguments the helper's parameters then stand for)
+	detect := func(fn *ssa.Function, cv *ssa.Call, user *ssa.Function, via *ssa.Call) {
+		n++
+		name := roleOf(user)
+		seenFn[name] = true
+		// the metadata inspected must be what the PEER sent on the tunnel-opening call
+		srcD := desc(cv.Call.Args[0])
+		wantSrc := map[string]string{
+			"(*pendingChannel).Start":            ".Header()#0",
+			"(*ReverseTunnelServer).Serve":       ".Header()#0",
+			"newReverseChannel":                  ".Context())#0",
+			"(*TunnelServiceHandler).openTunnel": ".Context())#0",
+		}[name]
+		okSrc := wantSrc != "" && strings.HasSuffix(srcD, wantSrc)
+		if strings.HasSuffix(wantSrc, ".Context())#0") {
+			okSrc = okSrc && strings.Contains(srcD, "metadata.FromIncomingContext(")
+		}
+		if strings.HasPrefix(srcD, "*alloc:") && strings.Contains(srcD, ".Header()#0") {
+			okSrc = okSrc || strings.Contains(wantSrc, "Header")
+		}
+		c.check(okSrc, rule, name+": inspects the peer's metadata", w.At(cv), srcD, "the negotiate header is looked up in "+srcD+", not in the metadata the peer sent ("+wantSrc+"): this end would see its own header and believe every peer negotiates — a legacy peer gets settings/window-update frames it does not understand")
+		// flag = phi(false, vals[0] == "on") with the comparison under len(vals) > 0
+		var eq *ssa.BinOp
+		allInstrsLocal(fn, func(in ssa.Instruction) {
+			b, ok := in.(*ssa.BinOp)
+			if !ok || b.Op != token.EQL || desc(b.Y) != negotiateVal {
+				return
+			}
+			if u, ok := b.X.(*ssa.UnOp); ok {
+				if ia, ok := u.X.(*ssa.IndexAddr); ok && ia.X == ssa.Value(cv) {
+					if k, isK := constInt(ia.Index); isK && k == 0 {
+						eq = b
+					}
+				}
+			}
+		})
+		if eq == nil {
+			c.fail(rule, name+": detects the peer's negotiate header", w.At(cv), "the negotiate header is read but not compared as vals[0] == \"on\"")
+			return
+		}
+		okLen := minLenAt(cv, eq) >= 1
+		c.check(okLen, rule, name+": first value compared under a length check", w.At(eq), "len(vals) > 0 && vals[0] == \"on\"", "vals[0] is compared without a dominating len(vals) > 0")
+		isFlag := func(v ssa.Value) bool { // false, or the comparison (when the length check held)
+			phi, ok := v.(*ssa.Phi)
+			if !ok {
+				return false
+			}
+			hasEq, hasFalse := false, false
+			for _, e := range phi.Edges {
+				if e == ssa.Value(eq) {
+					hasEq = true
+				}
+				if isConstBool(e, false) {
+					hasFalse = true
+				}
+			}
+			return hasEq && hasFalse && len(phi.Edges) == 2
+		}
+		if via != nil {
+			// predicate helper: it returns exactly the flag ...
+			okRet, nRet := true, 0
+			forEachReturnValue(fn, 0, func(v ssa.Value, at ssa.Instruction) {
+				nRet++
+				if !isFlag(v) && !isConstBool(v, false) && v != ssa.Value(eq) {
+					okRet = false
+				}
+			})
+			c.check(okRet && nRet > 0, rule, name+": the detection helper returns the comparison", w.At(eq), w.Short(fn)+" returns false or vals[0] == \"on\"", "the helper "+w.Short(fn)+" does not return exactly the result of the negotiate-header comparison")
+		}
+		// flows into the constructor
+		ctor := want[name]
+		okFlow := false
+		allInstrs(user, func(in ssa.Instruction) {
+			call2, ok := in.(*ssa.Call)
+			if !ok {
+				return
+			}
+			if !w.isRoleCall(call2, ctor) {
+				return
+			}
+			for _, a := range call2.Call.Args {
+				if via == nil && isFlag(a) {
+					okFlow = true
+				}
+				if via != nil && stripConv(a) == ssa.Value(via) {
+					okFlow = true // ... and that result is what the endpoint receives
+				}
+			}
+		})
+		c.check(okFlow, rule, name+": the detected flag configures the endpoint", w.At(eq), "flag passed to "+ctor, "the result of the negotiate-header detection is not what is passed to "+ctor+" (constant, inverted or another value): settings/flow control would be used with a peer that did not negotiate, or not used with one that did")
+	}
 	for _, fn := range w.Funcs {
-		for _, call := range callsNamed(fn, "(google.golang.org/grpc/metadata.MD).Get") {
-			cv, ok := call.(*ssa.Call)
-			if !ok || desc(cv.Call.Args[1]) != negotiateKey {
+		if isGenericTemplate(fn) {
+			continue
+		}
+		var gets []*ssa.Call
+		allInstrsLocal(fn, func(in ssa.Instruction) {
+			if cv, ok := in.(*ssa.Call); ok && calleeName(cv) == "(google.golang.org/grpc/metadata.MD).Get" && desc(cv.Call.Args[1]) == negotiateKey {
+				gets = append(gets, cv)
+			}
+		})
+		for _, cv := range gets {
+			if _, isPath := want[roleOf(fn)]; isPath || !w.isPrivateHelper(fn) {
+				detect(fn, cv, fn, nil)
 				continue
 			}
-			n++
-			name := roleOf(fn)
-			seenFn[name] = true
-			// the metadata inspected must be what the PEER sent on the tunnel-opening call
-			srcD := desc(cv.Call.Args[0])
-			wantSrc := map[string]string{
-				"(*pendingChannel).Start":            ".Header()#0",
-				"(*ReverseTunnelServer).Serve":       ".Header()#0",
-				"newReverseChannel":                  ".Context())#0",
-				"(*TunnelServiceHandler).openTunnel": ".Context())#0",
-			}[name]
-			okSrc := wantSrc != "" && strings.HasSuffix(srcD, wantSrc)
-			if strings.HasSuffix(wantSrc, ".Context())#0") {
-				okSrc = okSrc && strings.Contains(srcD, "metadata.FromIncomingContext(")
-			}
-			if strings.HasPrefix(srcD, "*alloc:") && strings.Contains(srcD, ".Header()#0") {
-				okSrc = okSrc || strings.Contains(wantSrc, "Header")
-			}
-			c.check(okSrc, rule, name+": inspects the peer's metadata", w.At(cv), srcD, "the negotiate header is looked up in "+srcD+", not in the metadata the peer sent ("+wantSrc+"): this end would see its own header and believe every peer negotiates — a legacy peer gets settings/window-update frames it does not understand")
-			// flag = phi(false, vals[0] == "on") with the comparison under len(vals) > 0
-			var eq *ssa.BinOp
-			allInstrs(fn, func(in ssa.Instruction) {
-				b, ok := in.(*ssa.BinOp)
-				if !ok || b.Op != token.EQL || desc(b.Y) != negotiateVal {
-					return
-				}
-				if u, ok := b.X.(*ssa.UnOp); ok {
-					if ia, ok := u.X.(*ssa.IndexAddr); ok && ia.X == ssa.Value(cv) {
-						if k, isK := constInt(ia.Index); isK && k == 0 {
-							eq = b
-						}
-					}
-				}
-			})
-			if eq == nil {
-				c.fail(rule, name+": detects the peer's negotiate header", w.At(cv), "the negotiate header is read but not compared as vals[0] == \"on\"")
-				continue
-			}
-			okLen := minLenAt(cv, eq) >= 1
-			c.check(okLen, rule, name+": first value compared under a length check", w.At(eq), "len(vals) > 0 && vals[0] == \"on\"", "vals[0] is compared without a dominating len(vals) > 0")
-			// flows into the constructor
-			ctor := want[name]
-			okFlow := false
-			allInstrs(fn, func(in ssa.Instruction) {
-				call2, ok := in.(*ssa.Call)
+			// a predicate helper shared by several opening paths: one detection per call site
+			for _, site := range w.callSitesOf(fn) {
+				via, ok := site.(*ssa.Call)
 				if !ok {
-					return
+					continue
 				}
-				if !w.isRoleCall(call2, ctor) {
-					return
-				}
-				for _, a := range call2.Call.Args {
-					if phi, ok := a.(*ssa.Phi); ok {
-						hasEq, hasFalse := false, false
-						for _, e := range phi.Edges {
-							if e == ssa.Value(eq) {
-								hasEq = true
-							}
-							if isConstBool(e, false) {
-								hasFalse = true
-							}
-						}
-						if hasEq && hasFalse && len(phi.Edges) == 2 {
-							okFlow = true
-						}
+				saved := paramBindings
+				paramBindings = map[*ssa.Parameter]ssa.Value{}
+				for k, p := range fn.Params {
+					if k < len(via.Call.Args) {
+						paramBindings[p] = via.Call.Args[k]
 					}
 				}
-			})
-			c.check(okFlow, rule, name+": the detected flag configures the endpoint", w.At(eq), "flag passed to "+ctor, "the result of the negotiate-header detection is not what is passed to "+ctor+" (constant, inverted or another value): settings/flow control would be used with a peer that did not negotiate, or not used with one that did")
+				detect(fn, cv, via.Parent(), via)
+				paramBindings = saved
+			}
 		}
 	}
 	c.floor(rule, n, 4, "negotiate-header detection sites")
@@ -294,6 +342,14 @@ func ruleRevisionSelection(c *Ctx, r4, r7 string) {
 				supPhi = phi
 			}
 		}
+		// the prologue may return its errors to the loop function, which closes: the facts at each such return
+		for _, vc := range valueCases(call.Common().Args[1], 0) {
+			for _, f := range boolFactsOf(vc.Facts) {
+				if phi, ok := f.V.(*ssa.Phi); ok && !f.True && inLoopPhi(phi) {
+					supPhi = phi
+				}
+			}
+		}
 	}
 	if supPhi == nil {
 		c.fail(r4, w.Short(fn)+": no common revision detected", posOf(w, fn), "no channel close guarded by a loop-carried 'found a common revision' flag: a settings frame without a common revision is silently accepted")
@@ -400,21 +456,23 @@ func ruleRevisionZeroFrames(c *Ctx, rule string) {
 			continue
 		}
 		n++
+		// every use of the emitting function as a value is as the update callback of the flow-controlled receiver
+		// constructor (a function literal, or a method passed as a method value), and it is never called directly
 		ok := false
-		if e.Fn.Parent() != nil {
-			allInstrs(e.Fn.Parent(), func(in ssa.Instruction) {
-				call, isC := in.(*ssa.Call)
-				if !isC {
-					return
-				}
+		uses := w.usesOfFuncValue(e.Fn)
+		if len(uses) > 0 {
+			ok = true
+			for _, call := range uses {
 				f := staticCallee(call)
-				if f == nil || !w.sameFn(f, w.roleFunc("newReceiver")) || len(call.Call.Args) != 3 {
-					return
+				if f == nil || !w.sameFn(f, w.roleFunc("newReceiver")) || len(call.Call.Args) != 3 || funcValueTarget(call.Call.Args[1]) != e.Fn {
+					ok = false
 				}
-				if mc, isMC := call.Call.Args[1].(*ssa.MakeClosure); isMC && mc.Fn == e.Fn {
-					ok = true
+			}
+			for _, s := range w.callSitesOf(e.Fn) {
+				if staticCallee(s) == e.Fn && !strings.Contains(s.Parent().Synthetic, "bound method wrapper") {
+					ok = false // also called directly from somewhere
 				}
-			})
+			}
 		}
 		c.check(ok, rule, emitKey(w, e)+": only as the flow-controlled receiver's update callback", w.At(e.Alloc), "closure passed to newReceiver", "a window_update frame is emitted from code that is not the update callback of a flow-controlled receiver: a revision-zero peer would receive a frame kind it does not know and end the tunnel")
 	}
